@@ -315,7 +315,12 @@ impl NormalizedDurationRecord {
     }
 
     pub(crate) fn sign(&self) -> TemporalResult<Sign> {
-        Ok(self.date.sign())
+        // InternalDurationSign: the sign of the date duration, or of the time duration
+        // when the date duration is zero.
+        Ok(match self.date.sign() {
+            Sign::Zero => self.norm.sign(),
+            sign => sign,
+        })
     }
 }
 
